@@ -133,8 +133,10 @@ func appendOutputEvents(rc *runCase, p *gen.Project, root string) {
 					pos += w + 1
 				}
 				nfields = len(fields)
-				if pos != len(rs) {
-					nfields = -len(rs) // the record does not have the width of the configured columns
+				if pos != len(rs) && pos-1 != len(rs) {
+					// the record does not have the width of the configured columns (the fill character after the last
+					// column may be there or not: a record without it has the same fields)
+					nfields = -len(rs)
 				}
 				for len(fields) < 8 {
 					fields = append(fields, "")
